@@ -1023,6 +1023,35 @@ class Engine:
     def st_Pass(self, path, frame, s):
         return
 
+    def st_ImportFrom(self, path, frame, s):
+        """function-local `from m import a [as b]`: names of extracted repository modules resolve through the module's
+        environment; every other name is an external reference (uninterpreted)"""
+        mod = s.module or ""
+        if s.level:
+            base = frame.module.split(".")
+            base = base[:len(base) - s.level]
+            mod = ".".join(base + ([mod] if mod else []))
+        for a in s.names:
+            if a.name == "*":
+                raise Unsupported("import *")
+            try:
+                env = self.facts.module_env(mod)
+            except Exception:
+                env = None
+            if env and a.name in env:
+                v = self.desc_to_value(env[a.name], mod)
+            elif mod.startswith("odata_query"):
+                raise Unsupported(f"import of {mod}.{a.name}: module not extracted")
+            else:
+                v = ExtRef(f"{mod}.{a.name}")
+            frame.locals[a.asname or a.name] = v
+
+    def st_Import(self, path, frame, s):
+        for a in s.names:
+            if a.name.startswith("odata_query"):
+                raise Unsupported(f"import of {a.name} inside a function")
+            frame.locals[a.asname or a.name.split(".")[0]] = Module(a.name if a.asname else a.name.split(".")[0])
+
     def st_Return(self, path, frame, s):
         raise _Return(self.eval(path, frame, s.value) if s.value is not None else None)
 
@@ -1392,6 +1421,37 @@ class Engine:
                 raise Unsupported("f-string part")
         return mk_str(parts)
 
+    def percent_format(self, path, fmt, arg):
+        """`fmt % arg` for a constant format with %s / %d / %r / %% conversions and no flags"""
+        import re as _re
+        args = list(arg) if isinstance(arg, tuple) else [arg]
+        parts, pos, used = [], 0, 0
+        for m in _re.finditer(r"%(.)", fmt):
+            parts.append(fmt[pos:m.start()])
+            pos = m.end()
+            cv = m.group(1)
+            if cv == "%":
+                parts.append("%")
+                continue
+            if cv not in "sdr":
+                raise Unsupported(f"% conversion {cv!r}")
+            if used >= len(args):
+                self.throw(path, "TypeError", "not enough arguments for format string")
+            x = args[used]
+            used += 1
+            if cv == "r":
+                try:
+                    pv = self.to_pv(x)
+                except Unsupported:
+                    pv = self.U.fresh("reprarg")
+                parts.append(Atom(self.uf("py_repr", self.PV, z3.StringSort())(pv), ("py_repr", pv)))
+            else:
+                parts.extend(self.str_parts(path, self.to_str(path, x)))
+        parts.append(fmt[pos:])
+        if used != len(args):
+            self.throw(path, "TypeError", "not all arguments converted during string formatting")
+        return mk_str([p for p in parts if not (isinstance(p, str) and p == "")])
+
     def as_sstr(self, path, v):
         """str value as str | SStr (a Sym known to be a string is opened up)"""
         if isinstance(v, Sym):
@@ -1562,8 +1622,10 @@ class Engine:
                     "Mod": "operator.mod", "BitAnd": "operator.and_", "BitOr": "operator.or_"}.get(opn)
             if name:
                 return self.ext_op(path, name, [l, r])
-        if opn == "Mod" and isinstance(l, (str, SStr)):
-            raise Unsupported("% string formatting")
+        if opn == "Mod" and isinstance(l, str):
+            return self.percent_format(path, l, r)
+        if opn == "Mod" and isinstance(l, SStr):
+            raise Unsupported("% formatting with a symbolic format string")
         raise Unsupported(f"binop {opn} on {type(l).__name__}, {type(r).__name__}")
 
     def _maybe_ext(self, path, s):
